@@ -178,7 +178,12 @@ def tagsCnt (A : Arr) (exact : Option Nat) : List String :=
   [ if n ≤ 4 then s!"n{n}" else if n ≤ 12 then "n5-12" else if n ≤ 64 then "n13-64" else if n ≤ 1024 then "n65-1024" else "n>1024",
     if maxGap A > 1024 then "gap>1024" else if maxGap A > 1 then "gap" else "nogap",
     match exact with | some x => if x ≥ 2 ^ 64 then (if x > f64Max then "count>f64max" else "count>2^64") else "count<2^64" | none => "nocount",
-    if isCanon A then "canon" else if reducedAnyOrder A then "reduced-not-postorder" else "noncanon" ]
+    if isCanon A then "canon" else if reducedAnyOrder A then "reduced-not-postorder" else "noncanon",
+    match cardF64 A, exact with
+      | .inf, _ => "f64-inf"
+      | .nan, _ => "f64-nan"
+      | .fin s, some x => if s == 0 then "f64-zero" else if s == x * F64.U then "f64-exact" else "f64-rounded"
+      | .fin _, none => "f64-finite" ]
 
 def handle (key : String) (ins obs : List String) : Verdict :=
   match key, ins, obs with
